@@ -117,6 +117,7 @@ void constructCommon(ModelSignature model,
     std::string filename_old = checkpoint_filename + "_old";
 
     if (!filename.empty()){ // recover from an existing checkpoint
+        TasmanianSparseGrid original_grid(grid); // a failed read leaves the grid empty or partially read
         std::ifstream infile(filename, std::ios::binary);
         try{ // attempt to recover from filename
             if (!infile.good()) throw std::runtime_error("missing main checkpoint");
@@ -131,6 +132,7 @@ void constructCommon(ModelSignature model,
                 complete.read(oldfile);
             }catch(std::runtime_error &){
                 // nothing could be recovered, start over from the current grid
+                grid = std::move(original_grid);
             }
         }
     }
